@@ -129,6 +129,7 @@ pub struct BtLog {
     pub last: Option<Final>,
     pub disconnects: u32,
     pub fills_reported: usize,
+    pub ready_reported: bool,
 }
 
 #[derive(Debug, Clone, Copy, PartialEq, Eq, Serialize, Deserialize)]
@@ -158,6 +159,13 @@ impl AlgoStrategy for TableStrategy {
         if seen > log.fills_reported {
             self.fills_total.fetch_add(seen - log.fills_reported, Ordering::SeqCst);
             log.fills_reported = seen;
+        }
+        // the initial account snapshot(s) have been processed (every asset has a balance): counted once
+        // per backtest into the same gate counter, so that the threaded check's last dataset item is
+        // also held until every engine knows its starting balances
+        if !log.ready_reported && state.assets.0.values().all(|a| a.balance.is_some()) {
+            log.ready_reported = true;
+            self.fills_total.fetch_add(1, Ordering::SeqCst);
         }
         log.last = Some(Final {
             recorder: state.global.clone(),
@@ -597,6 +605,7 @@ pub struct BacktestsThreads;
 impl Check for BacktestsThreads {
     type Case = BtCase;
     const NAME: &'static str = "backtests_threads";
+    const OWNS_SCHEDULE: bool = false;
 
     fn strategy(tier: Tier) -> BoxedStrategy<BtCase> {
         if tier == Tier::Quick { case_strategy(60, 12) } else { case_strategy(200, 24) }
@@ -616,7 +625,7 @@ impl Check for BacktestsThreads {
         let constant = Arc::new(BacktestArgsConstant {
             instruments: s.indexed.clone(),
             executions: s.executions.iter().map(|e| match e { ExecutionConfig::Mock(m) => ExecutionConfig::Mock(MockExecutionConfig { latency_ms: (m.latency_ms % 3), ..m.clone() }) }).collect(),
-            market_data: HarnessMarketData { events: Arc::new(s.dataset.clone()), gap_ms: 0, gate: Some(Gate { fills_total: fills_total.clone(), expected: expected_fills, timed_out: timed_out.clone() }) },
+            market_data: HarnessMarketData { events: Arc::new(s.dataset.clone()), gap_ms: 0, gate: Some(Gate { fills_total: fills_total.clone(), expected: expected_fills + tables.len(), timed_out: timed_out.clone() }) },
             summary_interval: Daily,
             engine_state: s.state.clone(),
         });
@@ -957,7 +966,7 @@ impl Check for InMemoryData {
 }
 
 pub fn run(ctx: &mut Ctx) {
-    ctx.rule = "backtests_paused: datasets of 1..80|300 market items (public trades over 1..3 instruments on 1..2 mock exchanges, unique increasing times, 5% reconnect notices) served with a virtual gap of 2 x latency + 5 ms; 1..12|24 concurrent backtests, each strategy a table (market-item ordinal -> market order) firing once per ordinal and never on the last two ordinals; mock latency 0..49 ms, fee in {0, 0.1%, 1%}; tokio paused current-thread runtime; every backtest is judged against its own table (market items seen = dataset in order, fills, final balances/positions, summary) and the first six are re-run alone and compared. backtests_threads: same through multi-thread runtimes with 1/2/4/8 workers, the dataset's last item gated on all expected fills (20 s watchdog => skipped, 60 s => inconclusive). non-trivial = >= 4 concurrent backtests with >= 4 different tables, every backtest has >= 1 fill, dataset >= 20 items; distinct by hash of the case. in_memory_data: MarketDataInMemory stream()/time_first_event on generated event lists; 1..4 streams taken from the one dataset (and a clone) polled in a generated interleaving must each yield the whole dataset (non-trivial = >= 2 streams, >= 3 switches). backtests_in_memory: 1..8 (in one case of 17 a sweep of 33..96) concurrent backtests over the crate's MarketDataInMemory (datasets 1..40 or 1..700|2500 items, zero gap, paused current-thread runtime), one item in five lags 1..900 s behind its place (timestamps not monotonic), judged on consumption only: each engine saw every market item and reconnect notice once, in order; then one backtest alone over the same shared data. system_audit_modes: the steps of backtest() through SystemBuild with the audit stream disabled / enabled and never taken / taken, read for 0..2500 ticks and dropped / read to the end (datasets 1..40 or 1..700|2500): the engine returned by shutdown_after_backtest saw the whole dataset. The solo-vs-concurrent comparison includes the fills' trade / order ids and the open positions' fill ids.".into();
+    ctx.rule = "backtests_paused: datasets of 1..80|300 market items (public trades over 1..3 instruments on 1..2 mock exchanges, unique increasing times, 5% reconnect notices) served with a virtual gap of 2 x latency + 5 ms; 1..12|24 concurrent backtests, each strategy a table (market-item ordinal -> market order) firing once per ordinal and never on the last two ordinals; mock latency 0..49 ms, fee in {0, 0.1%, 1%}; tokio paused current-thread runtime; every backtest is judged against its own table (market items seen = dataset in order, fills, final balances/positions, summary) and the first six are re-run alone and compared. backtests_threads: same through multi-thread runtimes with 1/2/4/8 workers, the dataset's last item gated on all expected fills and on every engine having processed its initial account snapshot (20 s watchdog => skipped, 60 s => inconclusive). non-trivial = >= 4 concurrent backtests with >= 4 different tables, every backtest has >= 1 fill, dataset >= 20 items; distinct by hash of the case. in_memory_data: MarketDataInMemory stream()/time_first_event on generated event lists; 1..4 streams taken from the one dataset (and a clone) polled in a generated interleaving must each yield the whole dataset (non-trivial = >= 2 streams, >= 3 switches). backtests_in_memory: 1..8 (in one case of 17 a sweep of 33..96) concurrent backtests over the crate's MarketDataInMemory (datasets 1..40 or 1..700|2500 items, zero gap, paused current-thread runtime), one item in five lags 1..900 s behind its place (timestamps not monotonic), judged on consumption only: each engine saw every market item and reconnect notice once, in order; then one backtest alone over the same shared data. system_audit_modes: the steps of backtest() through SystemBuild with the audit stream disabled / enabled and never taken / taken, read for 0..2500 ticks and dropped / read to the end (datasets 1..40 or 1..700|2500): the engine returned by shutdown_after_backtest saw the whole dataset. The solo-vs-concurrent comparison includes the fills' trade / order ids and the open positions' fill ids.".into();
     ctx.assumptions = vec![
         "strategies decide from the number of market items seen only, once per ordinal (decisions independent of the timing of execution responses), and place nothing on the last two ordinals".into(),
         "timestamps are set aside (the historical clock mixes in wall-clock time)".into(),
